@@ -278,6 +278,24 @@ def chord_structure(chords, spaced: bool = True, lens=None) -> Tuple[str, tuple]
     return (seq_for(n, k), tuple(sorted(pairs)))
 
 
+def repeated_motif(chords, hairpins_between: int, copies: int = 2) -> Tuple[str, tuple]:
+    """`copies` copies of one chord diagram (one pair per chord, spaced) separated by `hairpins_between` plain
+    hairpins: independent groups of crossing stems that share one crossing pattern"""
+    k = len(chords)
+    pairs = []
+    pos = 0
+    for c in range(copies):
+        for a, b in chords:
+            pairs.append((pos + 2 * a + 1, pos + 2 * b + 1))
+        pos += 4 * k
+        if c < copies - 1:
+            for _ in range(hairpins_between):
+                pairs.append((pos + 1, pos + 5))
+                pos += 6
+    n = pos
+    return (seq_for(n, k), tuple(sorted(pairs)))
+
+
 def seq_for(n: int, salt: int = 0) -> str:
     return "".join(SEQ_LETTERS[(k * 7 + salt * 3 + (k // 5)) % len(SEQ_LETTERS)] for k in range(n))
 
@@ -318,7 +336,9 @@ def st_structures(max_abstract: int = 8, max_stem: int = 6, max_gap: int = 5, mi
                 pairs.append((start[a] + t, start[b] + lens[k] - 1 - t))
         if n == 0:
             n = 1
-        letters = draw(st.sampled_from(["ACGU", "ACGUT", SEQ_LETTERS, "N"]))
+        # single-character BPSEQ symbols: nucleotides, IUPAC codes, lower case (modified residues), and the
+        # placeholders the library itself writes or tools use for unknown / missing residues
+        letters = draw(st.sampled_from(["ACGU", "ACGUT", SEQ_LETTERS, "N", "ACGU?", "acgu", "ACGU-", "ACGUn?*", "AC.GU", "0123ACGU"]))
         seq = "".join(draw(st.lists(st.sampled_from(letters), min_size=n, max_size=n)))
         return (seq, tuple(sorted(pairs)))
 
